@@ -3,10 +3,10 @@ package main
 import (
 	"bytes"
 	"encoding/json"
-	"os/exec"
 	"flag"
 	"fmt"
 	"os"
+	"os/exec"
 	"path/filepath"
 	"sort"
 	"strconv"
@@ -16,17 +16,18 @@ import (
 
 // PropSpec is /verif/props/<id>.json: what a property's check consists of.
 type PropSpec struct {
-	ID          string   `json:"id"`
-	Packages    []string `json:"packages"`
-	Functions   []string `json:"functions"`           // functions under functional contract
-	Sweep       []string `json:"sweep,omitempty"`     // functions swept for panics (no contract needed)
-	Lemmas      []string `json:"lemmas,omitempty"`    // spec-level lemmas (by name)
-	Lean        []string `json:"lean,omitempty"`      // lean files under /verif/lemmas
-	Bounded     []BoundedSpec `json:"bounded,omitempty"` // bounded stand-ins (dynamic checks of a contract over a stated finite domain)
-	Assumptions []string `json:"assumptions"`         // stated, unchecked
-	NotDecided  []string `json:"not_decided"`         // clauses of the property this check does not decide
-	Unclaimed   []string `json:"unclaimed,omitempty"` // obligation names generated but not claimed (with reason after ' -- ')
-	Thorough    struct {
+	ID            string        `json:"id"`
+	Packages      []string      `json:"packages"`
+	Functions     []string      `json:"functions"`                // functions under functional contract
+	Sweep         []string      `json:"sweep,omitempty"`          // functions swept for panics (no contract needed)
+	ThoroughSweep []string      `json:"thorough_sweep,omitempty"` // swept only in the thorough tier (too slow for every change)
+	Lemmas        []string      `json:"lemmas,omitempty"`         // spec-level lemmas (by name)
+	Lean          []string      `json:"lean,omitempty"`           // lean files under /verif/lemmas
+	Bounded       []BoundedSpec `json:"bounded,omitempty"`        // bounded stand-ins (dynamic checks of a contract over a stated finite domain)
+	Assumptions   []string      `json:"assumptions"`              // stated, unchecked
+	NotDecided    []string      `json:"not_decided"`              // clauses of the property this check does not decide
+	Unclaimed     []string      `json:"unclaimed,omitempty"`      // obligation names generated but not claimed (with reason after ' -- ')
+	Thorough      struct {
 		Timeout int `json:"timeout,omitempty"`
 	} `json:"thorough,omitempty"`
 	QuickTimeout int `json:"quick_timeout,omitempty"`
@@ -239,6 +240,11 @@ func cmdCheck(args []string) int {
 	}
 	for _, f := range spec.Sweep {
 		collect(f, true)
+	}
+	if *tier == "thorough" {
+		for _, f := range spec.ThoroughSweep {
+			collect(f, true)
+		}
 	}
 	for _, ln := range spec.Lemmas {
 		lobs, err := p.lemmaObligations(ln)
